@@ -38,6 +38,7 @@ def main():
     ap.add_argument("--scale", type=float, default=1.0)
     ap.add_argument("--only", type=int)
     ap.add_argument("--check", action="append", help="additional property checks to run against the change")
+    ap.add_argument("--tag", default="", help="round tag, e.g. r2 -> seeded/<ID>-r2-<n>")
     args = ap.parse_args()
     wt = f"/tmp/wt-{args.pid}"
     out_root = os.path.join(wt, "_out")
@@ -93,7 +94,7 @@ def main():
         ok = (meta["demo_on_clean_tree"]["exit"] == 0 and meta.get("patch_applies") and meta.get("demo_with_change", {}).get("exit", 0) != 0
               and (args.no_suite or meta.get("suite_with_change", {}).get("exit") == 0))
         meta["confirmed"] = bool(ok)
-        dst = os.path.join(VERIF, "seeded", f"{args.pid}-{n}")
+        dst = os.path.join(VERIF, "seeded", f"{args.pid}-{args.tag + '-' if args.tag else ''}{n}")
         os.makedirs(dst, exist_ok=True)
         for f in ("patch.diff", "demo.py", "notes.md"):
             if os.path.exists(os.path.join(src, f)):
